@@ -94,20 +94,45 @@ class Graph:
     def reach(self, mod, qual, stop=()):
         """functions reachable from the entry before the first output action, in call order"""
         seen, order = set(), []
+        self.binds = getattr(self, "binds", {})
 
-        def visit(m, q, depth):
+        def bind(fn2, call, caller_bind, is_method):
+            """callee parameter -> the caller's argument expression (the caller's own parameters resolved the same way)"""
+            pos = [a.arg for a in fn2.args.posonlyargs + fn2.args.args]
+            if is_method and pos and pos[0] in ("self", "cls"):
+                pos = pos[1:]
+            out = {}
+            for p_, a in zip(pos, call.args):
+                if not isinstance(a, ast.Starred):
+                    out[p_] = a
+            allowed = set(pos) | {a.arg for a in fn2.args.kwonlyargs}
+            for k in call.keywords:
+                if k.arg in allowed:
+                    out[k.arg] = k.value
+
+            class R(ast.NodeTransformer):
+                def visit_Name(self_, n):
+                    if isinstance(n.ctx, ast.Load) and n.id in caller_bind:
+                        return caller_bind[n.id]
+                    return n
+            import copy
+            return {k: R().visit(copy.deepcopy(v)) for k, v in out.items()}
+
+        def visit(m, q, depth, b):
             if (m, q) in seen or depth > 6:
                 return
             fn = self.func(m, q)
             if fn is None:
                 return
             seen.add((m, q))
+            self.binds[(m, q)] = b
             order.append((m, q, fn))
             for idx, m2, q2, call in self.callees(m, q, fn):
                 if q2 in stop:
                     break
-                visit(m2, q2, depth + 1)
-        visit(mod, qual, 0)
+                f2 = self.func(m2, q2)
+                visit(m2, q2, depth + 1, bind(f2, call, b, "." in q2) if f2 is not None else {})
+        visit(mod, qual, 0, {})
         return order
 
 
@@ -121,6 +146,8 @@ def guards_of(mod, qual, fn) -> List[Guard]:
             if isinstance(s, ast.If):
                 if any(isinstance(b, ast.Raise) for b in s.body):
                     out.append(Guard(mod, qual, s, s.test, False, list(ctxs), counter[0]))
+                if any(isinstance(b, ast.Raise) for b in s.orelse):
+                    out.append(Guard(mod, qual, s, s.test, True, list(ctxs), counter[0]))     # raises when the test is false
                 walk(s.body, ctxs + [("if", s.test, True)])
                 walk(s.orelse, ctxs + [("if", s.test, False)])
             elif isinstance(s, ast.Assert):
@@ -171,15 +198,23 @@ def role_of(expr, env=None) -> Optional[str]:
     return None
 
 
+BINDS: Dict[int, Dict[str, ast.AST]] = {}     # id(function node) -> parameter bindings from the call path being walked
+
+
 def local_env(fn):
-    env = {}
+    env = dict(BINDS.get(id(fn), {}))
     for n in ast.walk(fn):
         if isinstance(n, ast.Assign) and len(n.targets) == 1 and isinstance(n.targets[0], ast.Name):
-            env.setdefault(n.targets[0].id, n.value)
+            if n.targets[0].id in BINDS.get(id(fn), {}):
+                env[n.targets[0].id] = n.value
+            else:
+                env.setdefault(n.targets[0].id, n.value)
     return env
 
 
-def len_role(e, env):
+def len_role(e, env, depth=0):
+    if isinstance(e, ast.Name) and env and e.id in env and depth < 4:
+        return len_role(env[e.id], env, depth + 1)
     if isinstance(e, ast.Call) and isinstance(e.func, ast.Name) and e.func.id == "len" and e.args:
         return role_of(e.args[0], env)
     if isinstance(e, ast.Attribute) and e.attr in ("control_size", "calibration_size", "state_size"):
@@ -418,6 +453,7 @@ def run(ctx: core.Ctx) -> int:
         unclassified = list(ui_unclassified)
         graph.generator_cls = "ExtendedKalmanFilter" if name.endswith("_ekf") else "Model"
         for m, q, f in graph.reach(mod, name):
+            BINDS[id(f)] = graph.binds.get((m, q), {})
             for g in guards_of(m, q, f):
                 all_guards += 1
                 cs = classify(g, f, graph)
@@ -461,6 +497,8 @@ def run(ctx: core.Ctx) -> int:
                       "F6": ("sensor_noises",)}[c.split(":")[0]]
                 near = []
                 for ug, uf in unclassified:
+                    if ug.qual == "assert_valid_covariance":
+                        continue        # the covariance gate is classified as one unit at its call sites (F4c); its internals are C09's
                     e = expand(ug, uf)
                     tt = e.test
                     while isinstance(tt, ast.UnaryOp):
